@@ -22,7 +22,8 @@ Quick == Tier = "quick"
 PolyTab == << [cls |-> "random", j |-> 1], [cls |-> "small", j |-> 2], [cls |-> "zero", j |-> 0], [cls |-> "max", j |-> 0],
               [cls |-> "unit", j |-> 255], [cls |-> "const", j |-> 3], [cls |-> "x255", j |-> 0], [cls |-> "sparse", j |-> 4],
               \* an all-zero half of the (folded) vector in IPA round 7-j: entries only where bit j of the index is set / clear
-              [cls |-> "bithi", j |-> 7], [cls |-> "bithi", j |-> 0], [cls |-> "bitlo", j |-> 3] >>
+              [cls |-> "bithi", j |-> 7], [cls |-> "bithi", j |-> 0], [cls |-> "bitlo", j |-> 3],
+              [cls |-> "montsmall", j |-> 0] >>      \* every evaluation has small stored (Montgomery) words
 HalfPolys == {[cls |-> c, j |-> j] : c \in {"bithi", "bitlo"}, j \in 0 .. 7}
 Reps == <<"norm", "proj", "flip", "projflip">>
 
@@ -100,14 +101,14 @@ MpProgs == [k \in 1 .. Len(MpSeq) |->
                            ELSE IF Quick THEN [j \in 1 .. 8 |-> AllPerturb[((k * 8 + j + Seed) % Len(AllPerturb)) + 1]] \o Forges
                            ELSE AllPerturb]]
 
-Points == {"0", "1", "127", "128", "254", "255", "256", "257", "300", "65536", "2^64", "h", "r-2", "r-1", "rnd1", "rnd2"}
+Points == {"mont:1", "mont:2^64-1", "0", "1", "127", "128", "254", "255", "256", "257", "300", "65536", "2^64", "h", "r-2", "r-1", "rnd1", "rnd2"}
 PfPerturb == <<"pfL0", "pfL7", "pfR3", "pfa", "pfswap", "pfL0id", "pfLnext">>     \* the correct result with a proof changed in one component
 ResultsFor(pt) == IF ~Quick THEN <<"correct", "+1", "-1", "0", "f255", "f0", "rnd">> \o PfPerturb
                   ELSE IF pt \in {"255", "256"} THEN <<"correct", "+1", "-1", "0", "f255", "f0", "rnd">> \o PfPerturb
                   ELSE <<"correct", "+1", "f255", "rnd">>
 IpaProgs == {[kind |-> "ipa", label |-> "p", poly |-> pl, point |-> pt, results |-> ResultsFor(pt)] :
                pl \in (IF Quick THEN {PolyTab[1], PolyTab[7]} ELSE {PolyTab[i] : i \in 1 .. Len(PolyTab)} \cup HalfPolys),
-               pt \in (IF Part = "ipa_few" THEN {"0", "255", "256", "2^64", "r-1", "rnd1"} ELSE Points)}
+               pt \in (IF Part = "ipa_few" THEN {"0", "255", "256", "2^64", "r-1", "rnd1", "mont:5"} ELSE Points)}
 
 ByteCl == {"valid", "short1", "short32", "empty", "trail1", "trail32", "scalar_r", "scalar_r+1", "scalar_r-1", "scalar_max",
            "pt_xplusp", "pt_nonsubgroup", "pt_offcurve", "pt_other", "bitflip", "random",
@@ -125,7 +126,7 @@ WriteProgs == {[kind |-> "write", src |-> s, fault |-> f] : s \in {"mp", "ipa"},
 
 (* structured polynomials (unit vector, zero halves) at a few points: cheap for the reference, they have few non-zero terms *)
 IpaHalfProgs == {[kind |-> "ipa", label |-> "p", poly |-> pl, point |-> pt, results |-> <<"correct", "+1">>] :
-                   pl \in (IF Quick THEN {PolyTab[5], PolyTab[9], PolyTab[10], PolyTab[11]} ELSE {}), pt \in {"3", "255", "256", "rnd1"}}
+                   pl \in (IF Quick THEN {PolyTab[5], PolyTab[9], PolyTab[10], PolyTab[11], PolyTab[12]} ELSE {}), pt \in {"3", "255", "256", "rnd1"}}
 (* the zero polynomial (identity commitment, all-identity proof, zero final scalar) and a constant: every result class and every proof change *)
 IpaZeroProgs == {[kind |-> "ipa", label |-> "p", poly |-> pl, point |-> pt, results |-> <<"correct", "+1", "-1", "rnd">> \o PfPerturb] :
                    pl \in {PolyTab[3], PolyTab[6]}, pt \in (IF Quick THEN {"3", "256"} ELSE {"0", "3", "255", "256", "r-1", "rnd1"})}
